@@ -76,7 +76,12 @@ def a_misc(tier, rng):
     yield from gens.isi_lengths_grid(S(tier, 5, 7))
 
 
+def a_text(tier, rng):
+    yield from gens.text_cases(rng, S(tier, 400, 6000))
+
+
 SUITES = {
+    'a-text': a_text,
     'k-isi': k_suite('isi_profile'), 'k-spike': k_suite('spike_profile'), 'k-coinc': k_suite('coinc_profile'),
     'k-order': k_suite('order_profile'), 'k-single': k_suite('coinc_single'), 'k-dir': k_suite('dir_profile'),
     'k-tau': k_tau, 'k-half': k_half(('coinc_profile', 'coinc_single', 'order_profile', 'dir_profile')),
@@ -107,6 +112,6 @@ PROP_SUITES = {
     'C16': ['k-tau', 'k-coinc', 'k-single', 'k-order', 'k-dir', 'k-half', 'a-filter'],
     'C17': ['k-single', 'k-half', 'a-filter', 'a-sync'],
     'C18': A_ALL + ['a-filter'],
-    'C19': ['a-misc'],
+    'C19': ['a-text', 'a-misc'],
     'C20': ['a-misc'],
 }
